@@ -492,7 +492,17 @@ func (g *DumpGrid) Eval(x *Exec, root *Node, gc GridCase) GridResult {
 		}
 	case !o.Halt:
 		// the documented refusals: a pending vote, or an Alphabet contract in legacy mode that needs the network around it
-		if strings.Contains(o.Fault, "pending vote detected") || (src == "alphabet" && flag == "notary=01") {
+		// the pending-vote refusal is documented for a storage that says notary=true and holds ballots (here: the
+		// recorded ones, which stay fresh on this young chain); with the ballots emptied nothing is pending
+		hasBallots := false
+		if si := root.L.GetStorageItem(dc.State.ID, []byte("ballots")); si != nil {
+			if it, err := stackitem.Deserialize(si); err == nil {
+				if l, ok := it.Value().([]stackitem.Item); ok && len(l) > 0 {
+					hasBallots = true
+				}
+			}
+		}
+		if (flag == "notary=01" && hasBallots && !c.NoBallots) || (src == "alphabet" && flag == "notary=01") {
 			out = "refused-documented"
 		} else {
 			vs = append(vs, Viol("supported-version-refused", fmt.Sprintf("%s (version %d, %s): %s", gc.Name, ver, flag, o.Fault), where))
